@@ -294,6 +294,7 @@ def e1_writer_faults(ctx):
     tlc_mc(ctx, "WriterFaults", "MC_WriterFaults_dev_SkipFlushWhenFull.cfg", workers=4, expect_violation="NoSilentSuccess")
     tlc_mc(ctx, "WriterFaults", "MC_WriterFaults_dev_OverwriteErr.cfg", workers=4, expect_violation="NoSilentSuccess")
     tlc_mc(ctx, "WriterFaults", "MC_WriterFaults_dev_ErrOnlyIfShort.cfg", workers=4, expect_violation="FailingWriterReported")
+    tlc_mc(ctx, "WriterFaults", "MC_WriterFaults_dev_PollReturnsStaleErr.cfg", workers=4, expect_violation="NoSilentSuccess")
 
 
 def e1_builder_pool(ctx):
